@@ -240,6 +240,48 @@ def check_api_meta(ctx):
 NA_ = -999999999
 
 
+def check_clim_values(ctx):
+    """ClimatologyConfig.values(t, z): member lists from the C08 generator, times on and around the span ends"""
+    import pandas as pd
+    import gen_qc
+    import qcexec  # noqa: F401
+    from ioos_qc import qartod
+    g = gen_qc.Gen(ctx.seed + 101, size=6)
+    r = g.r
+    events = []
+    for _ in range(1500):
+        ms = [g.member() for _ in range(r.randint(0, 3))]
+        cc = qartod.ClimatologyConfig()
+        for m in ms:
+            kw = {"vspan": tuple(m["vspan"])}
+            if m["period"] == "":
+                kw["tspan"] = tuple(pd.Timestamp(v, unit="s") for v in m["tspan"])
+            else:
+                kw["tspan"], kw["period"] = tuple(m["tspan"]), m["period"]
+            if m["fspan"]:
+                kw["fspan"] = tuple(m["fspan"])
+            if m["zspan"]:
+                kw["zspan"] = tuple(m["zspan"])
+            cc.add(**kw)
+        # times: the ends of the absolute spans, one second either side, and edge days of the calendar
+        cand = [d * 86400 + s for d in gen_qc.EDGE_DAYS[:12] for s in (0, 43200)]
+        for m in ms:
+            if m["period"] == "":
+                cand += [v + k for v in m["tspan"] for k in (-1, 0, 1)]
+        for t in r.sample(cand, min(6, len(cand))):
+            for z in r.sample([gen_qc.NA, 0, 5, 10, 20, 7], 3):
+                e = {"id": len(events) + 1, "members": ms, "t": t, "z": z, "out": [], "exc": ""}
+                try:
+                    out = cc.values(pd.Timestamp(t, unit="s"), None if z == gen_qc.NA else float(z))
+                    e["out"] = [] if out[0] is None else [int(out[0]), int(out[1])]
+                except Exception as ex:  # noqa: BLE001
+                    e["exc"] = type(ex).__name__
+                events.append(e)
+    rejects = core.validate_parallel(ctx, events, "Trace_ClimValues", "climvalues", session_key="none", chunk=2500)
+    by = {e["id"]: e for e in events}
+    return [(by[i], cl) for i, cl in rejects], len(events)
+
+
 def check_dictops(ctx):
     """utils.dict_update / dict_depth on every pair of trees of depth <= 2 over two keys and two leaf values, plus a few
     three-key / depth-3 ones; dict, OrderedDict and mixed mappings"""
@@ -304,7 +346,8 @@ def run():
                      ("2-D inputs keep their shape (Trace_Qc, recall)", check_2d),
                      ("global ioos_qc_config attribute wins over per-variable attributes (Trace_Config)", check_global_attr_precedence),
                      ("flag metadata of the test functions, stream accessors (ApiMeta.tla)", check_api_meta),
-                     ("utils.dict_update / dict_depth (DictOps.tla)", check_dictops)):
+                     ("utils.dict_update / dict_depth (DictOps.tla)", check_dictops),
+                     ("ClimatologyConfig.values lookup (QcTests.ClimValues)", check_clim_values)):
         owned, n = fn(ctx)
         ctx.log("%s: %d events, %d rejected clauses" % (name, n, len(owned)))
         for e, cl in owned[:6]:
